@@ -1,6 +1,6 @@
 (* ConnProofsC8.v — C16, "window slots are not lost": under c16_window_const the dequeuer's
-   token-wait timeout happens only when the window is full (c16_slots_not_lost2, the clause of
-   ConnSpec4.v with the slot of a received acknowledgement freed at its successful Delete).
+   token-wait timeout happens only when the window is full (c16_slots_not_lost2 of
+   ConnProofsCDefs.v: the slot of a received acknowledgement is freed at its successful Delete).
    Lower bound, while the peer has not acknowledged an id not in flight and the dequeuer is
    alive:   W <= in flight + acknowledgements in hand + free slots + slot held by the dequeuer. *)
 From Coq Require Import List NArith Bool Lia ZArith ZifyN ZifyNat ZifyBool.
@@ -564,9 +564,160 @@ Proof.
 Qed.
 
 (* Setup starts afresh *)
-Lemma RL_setup s t u c resumed fresh w p b u' :
+Lemma RL_setup s t c resumed fresh w p b u' :
   INV s -> pp s = PSetup c -> RLr (setup_state s c resumed fresh w p b) t u'.
 Proof.
   intros HI Hp. assert (Hd : dp s = DOff) by (apply (I_pre _ HI); rewrite Hp; reflexivity).
   unfold setup_state. destruct fresh; constructor; bcsimpl; rewrite ?Hd; cbn [alive]; first [discriminate|exact I].
 Qed.
+
+Lemma RL_step s t v u e s' t' u' :
+  INV4 s -> RW s t -> RFr s t -> RTr s v -> RUI s u -> s2_fl u = wb_fl t -> RLr s t u ->
+  step s e = Some s' -> wb_step t e = Some t' -> sl2_step u e = Some u' -> is_setup_ok e = false ->
+  wb_spur t' = true \/ RLr s' t' u'.
+Proof.
+  intros [[HI HS] HC] HW HF HT HU Ef HL H Hw Hu Ese. apply step_inv in H.
+  destruct H as [He Ho ->|He Ho ->|He Hq ->|Hc|g s1 Hg Hl Hr Ho Hp|g s1 Hg Hl Hr Ho Hnp Hd
+                |g s1 Hg Hl Hr Ho Hnp Hnd Ha|g s1 Hg Hl Hr Ho Hc|He Hc|g He Ho ->].
+  - subst e. right. constructor; bcsimpl; cbn [alive]; [discriminate|exact I].
+  - subst e. cbn [wb_step] in Hw. injection Hw as <-. apply sl2_next in Hu as [_ Ea]. right.
+    (eapply RLr_frame; [exact Ea| | | | |exact HL]); first [reflexivity|left; reflexivity|intros Ha; split; [exact Ha|reflexivity]].
+  - subst e. cbn [wb_step] in Hw. injection Hw as <-. apply sl2_next in Hu as [_ Ea]. right.
+    (eapply RLr_frame; [exact Ea| | | | |exact HL]); first [reflexivity|left; reflexivity|intros Ha; split; [exact Ha|reflexivity]].
+  - apply step_clo_sum in Hc as (He & Hs & _).
+    rewrite (wb_step_same _ _ _ Hw) by (destruct e; try contradiction; exact I).
+    apply sl2_next in Hu as [_ Ea].
+    destruct (next_same u e) as [_ N2]; [destruct e; try contradiction; try exact I; destruct d; [exact I|contradiction]|].
+    right. eapply RLr_same; [exact Hs|]. (eapply RLr_frame; [rewrite Ea; exact N2| | | | |exact HL]);
+      first [reflexivity|left; reflexivity|intros Ha; split; [exact Ha|reflexivity]].
+  - assert (HU1 : RUI s1 u).
+    { destruct (learned_role_kept _ _ Hl) as [_ Kd].
+      assert (E : pp s1 = pp s /\ dp s1 = dp s) by (destruct Hl as [->|(g0 & _ & [[_ ->]|[[_ ->]|[[_ ->]|[_ ->]]]])]; split; reflexivity).
+      destruct E as [Ep Ed]. destruct HU as [U1 U2]. constructor; rewrite ?Ep, ?Ed; [|exact U2].
+      intros g' Hg'. destruct (U1 g' Hg') as [G W]. split; [apply Kd; exact G|exact W]. }
+    assert (HC1 : INVC s1) by (destruct Hl as [->|(g0 & _ & [[_ ->]|[[_ ->]|[[_ ->]|[_ ->]]]])]; try exact HC; (eapply INVC_frame; [| |exact HC]); reflexivity).
+    assert (HF1 : RFr s1 t) by (destruct (RF_learned _ _ _ Hl (or_intror HF)) as [C|X]; [|exact X];
+      (eapply RFr_frame; [| | |exact HF]); destruct Hl as [->|(g0 & _ & [[_ ->]|[[_ ->]|[[_ ->]|[_ ->]]]])];
+      first [reflexivity|left; split; reflexivity|left; reflexivity]).
+    assert (HT1 : RTr s1 v) by ((eapply RTr_frame; [| | | | | |exact HT]);
+      destruct Hl as [->|(g0 & _ & [[_ ->]|[[_ ->]|[[_ ->]|[_ ->]]]])]; bcsimpl;
+      first [reflexivity|left; reflexivity|intros Hd0; split; [exact Hd0|lia]]).
+    eapply RL_proc; [eapply INV_learned; eassumption|eapply INVS_learned; eassumption|exact HC1|eapply RW_learned; eassumption
+                    |exact HF1|exact HT1|exact HU1|exact Ef|eapply RLr_learned; eassumption|exact Hp|exact Hw|exact Hu|exact Ese].
+  - assert (HF1 : RFr s1 t) by ((eapply RFr_frame; [| | |exact HF]); destruct Hl as [->|(g0 & _ & [[_ ->]|[[_ ->]|[[_ ->]|[_ ->]]]])];
+      first [reflexivity|left; split; reflexivity|left; reflexivity]).
+    eapply RL_deq; [eapply INV_learned; eassumption|exact HF1|eapply RLr_learned; eassumption|exact Hd|exact Hw|exact Hu].
+  - pose proof (INV_learned _ _ Hl HI) as HI1. pose proof (step_ack_sum _ _ _ Ha) as (Hs & _ & He).
+    assert (Et : t' = t).
+    { destruct e; try contradiction; try (cbn [wb_step] in Hw; injection Hw as <-; reflexivity).
+      destruct async; [|contradiction]. destruct He as (q' & Ht & _).
+      destruct ok; [|rewrite wb_tx_fail in Hw; injection Hw as <-; reflexivity].
+      eapply wb_tx_uncounted; [|exact Hw]. apply ack_not_counted. eapply ackq_take_is_ack; [exact Ht|apply (I_ackq _ HI1)]. }
+    subst t'. apply sl2_next in Hu as [_ Ea].
+    assert (N2 : next_ack u e = s2_ack u) by (destruct e; try contradiction; reflexivity).
+    right. eapply RLr_same; [exact Hs|]. eapply RLr_learned; [exact Hl|].
+    (eapply RLr_frame; [rewrite Ea; exact N2| | | | |exact HL]);
+      first [reflexivity|left; reflexivity|intros Ha0; split; [exact Ha0|reflexivity]].
+  - apply step_cleanup_sum in Hc as (He & Hc).
+    rewrite (wb_step_same _ _ _ Hw) by (destruct e; try contradiction; exact I).
+    apply sl2_next in Hu as [_ Ea].
+    destruct (next_same u e) as [_ N2]; [destruct e; try contradiction; exact I|].
+    assert (HL1 : RLr s1 t u') by (eapply RLr_learned; [exact Hl|];
+      (eapply RLr_frame; [rewrite Ea; exact N2| | | | |exact HL]);
+      first [reflexivity|left; reflexivity|intros Ha0; split; [exact Ha0|reflexivity]]).
+    right. destruct Hc as [(Hs & _)|Hf]; [eapply RLr_same|eapply RLr_frozen]; eassumption.
+  - subst e. cbn [wb_step] in Hw. injection Hw as <-. apply sl2_next in Hu as [_ Ea]. cbn [next_ack] in Ea.
+    assert (HL1 : RLr s t u') by ((eapply RLr_frame; [exact Ea| | | | |exact HL]);
+      first [reflexivity|left; reflexivity|intros Ha0; split; [exact Ha0|reflexivity]]).
+    apply step_cleanup_sum in Hc as (_ & Hc).
+    right. destruct Hc as [(Hs & _)|Hf]; [eapply RLr_same|eapply RLr_frozen]; eassumption.
+  - subst e. cbn [wb_step] in Hw. injection Hw as <-. apply sl2_next in Hu as [_ Ea]. right.
+    (eapply RLr_frame; [exact Ea| | | | |exact HL]); bcsimpl; first [reflexivity|left; reflexivity|intros Ha; split; [exact Ha|reflexivity]].
+Qed.
+
+(* ---------------------------------------------------------------- assembly *)
+
+Lemma step_setup_inv s g r f w p b s' : step s (ESetup g (SOk r f w p b)) = Some s' ->
+  exists s1 c, learned s s1 /\ pp s1 = PSetup c /\ s' = setup_state s1 c r f w p b.
+Proof.
+  intros H. apply step_inv in H.
+  destruct H as [He Ho ->|He Ho ->|He Hq ->|Hc|g' s1 Hg Hl Hr Ho Hp|g' s1 Hg Hl Hr Ho Hnp Hd
+                |g' s1 Hg Hl Hr Ho Hnp Hnd Ha|g' s1 Hg Hl Hr Ho Hc|He Hc|g' He Ho ->]; try discriminate.
+  - unfold step_proc in Hp. destruct (pp s1) as [| | | | | |ps| | | | | | | | | | | | | | | | | | | | | |] eqn:Ep;
+      try discriminate Hp; [|destruct ps; discriminate Hp]. cbv beta iota zeta in Hp. unfold guard in Hp.
+    destruct ((0 <? w) && (0 <? p) && (0 <? b)); [|discriminate Hp]. injection Hp as <-.
+    exists s1, c. repeat split; assumption.
+  - exfalso. unfold step_deq in Hd. destruct (dp s1); discriminate Hd.
+  - pose proof (step_ack_sum _ _ _ Ha) as (_ & _ & He). contradiction.
+  - apply step_cleanup_sum in Hc as (He & _). contradiction.
+Qed.
+
+(* the scanner's only demand: a token timeout of the waiting dequeuer needs a full window *)
+Lemma sl2_enabled s t u e s' :
+  INV s -> s2_fl u = wb_fl t -> s2_spur u = wb_spur t -> s2_w u = cw s -> RUI s u ->
+  (wb_spur t = true \/ RLr s t u) -> step s e = Some s' -> exists u', sl2_step u e = Some u'.
+Proof.
+  intros HI Ef Es Ew [U1 _] HL H.
+  destruct (sl2_step u e) as [u'|] eqn:E; [exists u'; reflexivity|exfalso].
+  destruct e; cbn [sl2_step] in E; try discriminate E.
+  - destruct p; try discriminate E; destruct (nmem id (s2_fl u)); discriminate E.
+  - destruct p; try discriminate E; destruct ok; try discriminate E; destruct dup; discriminate E.
+  - destruct r; discriminate E.
+  - destruct d; [discriminate E|]. destruct ok; discriminate E.
+  - destruct k; try discriminate E.
+    destruct (nmem g (s2_idle u)) eqn:Ei; [|discriminate E].
+    destruct (s2_spur u) eqn:Esp; [discriminate E|]. cbn [andb negb] in E.
+    destruct (N.ltb_spec (N.of_nat (length (s2_fl u) + length (s2_ack u))) (s2_w u)) as [Hlt|]; [|discriminate E].
+    apply nmem_true_iff in Ei. destruct (U1 g Ei) as [Gd W].
+    destruct HL as [C|[L1 _]]; [congruence|].
+    apply step_inv in H.
+    destruct H as [He Ho ->|He Ho ->|He Hq ->|Hc|g' s1 Hg Hl Hr Ho Hp|g' s1 Hg Hl Hr Ho Hnp Hd
+                  |g' s1 Hg Hl Hr Ho Hnp Hnd Ha|g' s1 Hg Hl Hr Ho Hc|He Hc|g' He Ho ->]; try discriminate.
+    + cbn [ev_g] in Hg. injection Hg as <-. destruct (learned_role_kept _ _ Hl) as [_ Kd].
+      exact (I_roles _ (INV_learned _ _ Hl HI) _ Hr (Kd _ Gd)).
+    + assert (E1 : dp s1 = dp s /\ tdeq s1 = tdeq s) by (destruct Hl as [->|(g0 & _ & [[_ ->]|[[_ ->]|[[_ ->]|[_ ->]]]])]; split; reflexivity).
+      destruct E1 as [Ed Et]. unfold step_deq, guard in Hd. rewrite Ed in Hd.
+      destruct W as [W|[W|W]]; rewrite W in Hd; try discriminate Hd.
+      rewrite Et in Hd. destruct (N.eqb_spec (tdeq s) 0) as [Hz|]; [|discriminate Hd].
+      rewrite W in L1. cbn [alive held deq_busy] in L1. specialize (L1 eq_refl). rewrite Ef in Hlt. lia.
+    + pose proof (step_ack_sum _ _ _ Ha) as (_ & _ & He). contradiction.
+    + apply step_cleanup_sum in Hc as (He & _). contradiction.
+Qed.
+
+Definition R_sl (s : bc) (u : sl2_st) (x : wb_st * pk_st) : Prop :=
+  R_cw s (fst x) x /\
+  (s2_fl u = wb_fl (fst x) /\ s2_spur u = wb_spur (fst x) /\ s2_w u = wb_w (fst x)) /\
+  RUI s u /\ (wb_spur (fst x) = true \/ RLr s (fst x) u).
+
+Lemma sl_step_ok s u x e s' x' : INV4 s -> R_sl s u x -> step s e = Some s' -> pkw_step x e = Some x' ->
+  exists u', sl2_step u e = Some u' /\ R_sl s' u' x'.
+Proof.
+  intros HI4 (HCW & (Ef & Es & Ew) & HU & HL) H Hh. pose proof HI4 as [[HI HS] HC].
+  destruct (cw_step_ok s (fst x) x e s' x' (proj1 HI4) HCW H Hh) as (t' & Hw & HCW').
+  pose proof HCW as (_ & HW & _ & HRC). pose proof HCW' as (Ex' & HW' & _ & _).
+  assert (Ecw : s2_w u = cw s) by (rewrite Ew; apply HW).
+  destruct (sl2_enabled s (fst x) u e s' HI Ef Es Ecw HU HL H) as (u' & Hu).
+  exists u'. split; [exact Hu|]. unfold R_sl. rewrite Ex'.
+  destruct (sl2_sync u (fst x) e t' u' Ef Es Ew Hw Hu (step_dup_ok _ _ _ HI HC H)) as (Ef' & Es' & Ew').
+  split; [exact HCW'|]. split; [repeat split; assumption|].
+  split; [eapply RUI_step; eassumption|].
+  destruct (is_setup_ok e) eqn:Ese.
+  - destruct e; try discriminate Ese. destruct r as [|r f w p b]; [discriminate Ese|].
+    destruct (step_setup_inv _ _ _ _ _ _ _ _ H) as (s1 & c & Hl & Hp & ->).
+    right. apply RL_setup; [eapply INV_learned; eassumption|exact Hp].
+  - destruct (wb_spur (fst x)) eqn:Esp; [left; eapply wb_spur_mono; eassumption|].
+    destruct HL as [C|HL]; [discriminate C|]. destruct HRC as [C|(HK & HF & HT)]; [discriminate C|].
+    eapply RL_step; eassumption.
+Qed.
+
+Lemma R_sl_init : R_sl bc_init (Sl2St 0 [] [] false []) (WbSt 0 [] false, PkSt 0 []).
+Proof.
+  split; [exact R_cw_init|]. split; [repeat split|]. split; [constructor; cbn; [intros ? []|reflexivity]|].
+  right. constructor; cbn; [discriminate|exact I].
+Qed.
+
+(* window slots are not lost: under c16_window_const the waiting dequeuer gives up only when
+   the window is full *)
+Theorem c16_slots_not_lost_holds :
+  forall es s, bc_run es = Some s -> c16_window_const es = true -> c16_slots_not_lost2 es = true.
+Proof. exact (scan2_sound sl2_step pkw_step INV4 R_sl INV4_init INV4_step sl_step_ok _ _ R_sl_init). Qed.
